@@ -8,7 +8,7 @@
                   the `parent` link and `_tx_*` entries; parents precede children in the table (decidable,
                   evaluated on every dumped implementation model by the check).
    contains / chain / scope_at / resolves_to / unresolvable : the specification (Model/Fqn.v). *)
-From TxV Require Import Core.Base Model.FqnDefs Gen.SrcFqn Model.Fqn Model.FqnWitness Proofs.FqnProofs.
+From TxV Require Import Core.Base Model.FqnDefs Gen.SrcFqn Model.Fqn Model.FqnExt Model.FqnWitness Proofs.FqnProofs Proofs.FqnExtProofs.
 
 (* Sibling names unique: a dotted name resolves to t exactly when t ends the chain of named, contained
    objects matching its parts that starts at the nearest of [referrer, parent, grand-parent, ...] having
@@ -111,3 +111,128 @@ Print Assumptions C10_nonvacuous_references.
 Example C10_nonvacuous_dotted : split_dots (join_dots [[112];[100];[99]]%N) = [[112];[100];[99]]%N /\ join_dots [[112];[100];[99]]%N = t_pdc.
 Proof. vm_compute. split; reflexivity. Qed.
 Print Assumptions C10_nonvacuous_dotted.
+
+(* ================================================================== extensions *)
+
+(* ---- what C10 means for objects that are not (only) textX objects.  The provider walks an attribute
+   exactly when its name is public (no `__`/`_tx_` prefix, not `parent`), its value is not callable and, if
+   it is a declared textX attribute, it is a containment attribute.  So for plain Python objects and for
+   attributes added by user code "contained" means: value of any public, non-callable attribute. *)
+Theorem C10_walked_meaning : forall a, src_walked a = walked_meaning a.
+Proof. exact src_walked_meaning. Qed.
+Print Assumptions C10_walked_meaning.
+
+(* With `contains_w` (value of a walked attribute) in place of `contains`, C10_fqn holds for EVERY object
+   table whose parent links point to earlier objects -- no assumption on the attributes at all. *)
+Theorem C10_fqn_walked : forall conf m r text T t,
+  parents_decrease m = true -> r < length m -> unique_on_w m (split_dots text) ->
+  (fqn_resolve conf m r text T = Found t <-> resolves_g m (good_w conf m (split_dots text) T) r t).
+Proof. exact fqn_resolves_w. Qed.
+Print Assumptions C10_fqn_walked.
+
+Theorem C10_fqn_walked_unknown : forall conf m r text T,
+  parents_decrease m = true -> r < length m -> unique_on_w m (split_dots text) ->
+  (fqn_resolve conf m r text T = Unknown <-> unresolvable_g m (good_w conf m (split_dots text) T) r).
+Proof. exact fqn_unknown_w. Qed.
+Print Assumptions C10_fqn_walked_unknown.
+
+Theorem C10_fqn_walked_total : forall conf m r text T,
+  parents_decrease m = true -> r < length m -> fqn_resolve conf m r text T <> OutOfFuel.
+Proof. exact fqn_total_w. Qed.
+Print Assumptions C10_fqn_walked_total.
+
+(* no hypothesis at all: whatever is found ends a chain over walked attributes from the referrer or an ancestor *)
+Theorem C10_walked_genuine : forall conf m r text T t,
+  fqn_resolve conf m r text T = Found t ->
+  exists i s, scope_at m r i s /\ chain_w m s (split_dots text) t /\ conforms conf m t T = true.
+Proof. exact fqn_genuine_w. Qed.
+Print Assumptions C10_walked_genuine.
+
+(* for textX objects the two notions coincide *)
+Theorem C10_walked_is_containment : forall m o c, wf_model m = true -> (contains_w m o c <-> contains m o c).
+Proof. exact contains_w_wf. Qed.
+Print Assumptions C10_walked_is_containment.
+
+(* ---- FQNImportURI / FQNGlobalRepo (ImportURI.__call__ around FQN): the same search is started at the
+   referring object, then at every local model, then at every builtin model (order translated from the
+   source); the answer is that of the first start at which the single-model specification resolves. *)
+Theorem C10_import_order : forall r locals builtins, search_starts r locals builtins = r :: locals ++ builtins.
+Proof. exact search_starts_eq. Qed.
+Print Assumptions C10_import_order.
+
+Theorem C10_import_fqn : forall conf m r locals builtins text T t,
+  wf_model m = true -> Forall (fun s => s < length m) (r :: locals ++ builtins) -> siblings_unique m ->
+  (fqn_import_resolve conf m r locals builtins text T = Found t <->
+   multi_resolves (fun s t => resolves_to conf m s (split_dots text) T t)
+                  (fun s => unresolvable conf m s (split_dots text) T) (r :: locals ++ builtins) t).
+Proof. exact fqn_import_resolves. Qed.
+Print Assumptions C10_import_fqn.
+
+Theorem C10_import_unknown : forall conf m r locals builtins text T,
+  wf_model m = true -> Forall (fun s => s < length m) (r :: locals ++ builtins) -> siblings_unique m ->
+  (fqn_import_resolve conf m r locals builtins text T = Unknown <->
+   multi_unresolvable (fun s => unresolvable conf m s (split_dots text) T) (r :: locals ++ builtins)).
+Proof. exact fqn_import_unknown. Qed.
+Print Assumptions C10_import_unknown.
+
+(* ---- FQN(scope_redirection_logic=...) *)
+(* a callback that always answers [] changes nothing: all theorems above transfer *)
+Theorem C10_redirect_conservative : forall conf redir f m r text T,
+  (forall p, redir p = RList []) ->
+  fqn_resolve_r conf redir (S f) m r text T = lift_result (fqn_resolve conf m r text T).
+Proof. exact fqn_resolve_r_conservative. Qed.
+Print Assumptions C10_redirect_conservative.
+
+(* no hypothesis: whatever is resolved ends a chain of named objects, each contained in the previous one or in
+   an object the callback lets stand in for it -- never reached through `parent` or a non-containment reference. *)
+Theorem C10_redirect_genuine : forall conf redir rf m r text T t,
+  fqn_resolve_r conf redir rf m r text T = XFound t ->
+  exists i s, scope_at m r i s /\ chain_r redir r m s (split_dots text) t /\ conforms conf m t T = true.
+Proof. exact fqn_resolve_r_genuine. Qed.
+Print Assumptions C10_redirect_genuine.
+
+(* C10_fqn with redirection, for callbacks that answer lists (never Postponed) whose elements are not redirected
+   themselves (as follow_loaded_models_scope_redirection_logic of FQNImportURI(importAs=True): the loaded models):
+   with names unique among contained and stand-in objects together, the provider resolves a dotted name exactly to the
+   end of the chain (over `reach`) from the nearest scope that has a well-typed one, answers unknown exactly when there is
+   none, and never postpones or runs out of the model's fuel.
+   PARTIAL with respect to arbitrary callbacks: nested (acyclic) redirections and Postponed answers are covered by
+   C10_redirect_genuine only. *)
+Theorem C10_redirect_fqn_partial : forall conf redir f m r text T,
+  parents_decrease m = true -> r < length m ->
+  (forall p, exists l, redir p = RList l) -> (forall p l x, redir p = RList l -> In x l -> redir x = RList []) ->
+  unique_on_r redir r m (split_dots text) ->
+  (forall t, fqn_resolve_r conf redir (S (S f)) m r text T = XFound t <->
+             resolves_g m (good_r conf redir r m T (split_dots text)) r t) /\
+  (fqn_resolve_r conf redir (S (S f)) m r text T = XUnknown <->
+   unresolvable_g m (good_r conf redir r m T (split_dots text)) r) /\
+  fqn_resolve_r conf redir (S (S f)) m r text T <> XOutOfFuel /\
+  fqn_resolve_r conf redir (S (S f)) m r text T <> XPostponed.
+Proof. exact fqn_resolve_r_exact. Qed.
+Print Assumptions C10_redirect_fqn_partial.
+
+(* ---- non-vacuity of the extensions *)
+Example C10_nonvacuous_import :
+  wf_model w3 = true /\ unique_b w3 = true /\ Forall (fun s => s < length w3) (3 :: [5] ++ []) /\
+  fqn_resolve wconf w3 3 t_pe 2 = Unknown /\ fqn_import_resolve wconf w3 3 [5] [] t_pe 2 = Found 7 /\
+  fqn_import_resolve wconf w3 3 [5] [] [99]%N 2 = Found 2 /\ fqn_import_resolve wconf w3 3 [5] [] t_pdc 2 = Unknown.
+Proof. vm_compute. repeat split; try reflexivity; repeat constructor. Qed.
+Print Assumptions C10_nonvacuous_import.
+
+Example C10_nonvacuous_redirect :
+  fqn_resolve_r wconf w_redir 3 w3 3 t_cpe 2 = XFound 7 /\ fqn_resolve wconf w3 3 t_cpe 2 = Unknown /\
+  fqn_resolve_r wconf (fun _ => RList []) 3 w3 3 t_cpe 2 = XUnknown.
+Proof. vm_compute. repeat split; reflexivity. Qed.
+Print Assumptions C10_nonvacuous_redirect.
+
+Example C10_nonvacuous_redirect_hyps :
+  parents_decrease w3 = true /\ (forall p, exists l, w_redir p = RList l) /\
+  (forall p l x, w_redir p = RList l -> In x l -> w_redir x = RList []).
+Proof. exact w_redir_flat. Qed.
+Print Assumptions C10_nonvacuous_redirect_hyps.
+
+Example C10_nonvacuous_walked :
+  wf_model w_py = false /\ parents_decrease w_py = true /\ fqn_resolve wconf w_py 0 t_pnk 7 = Found 3 /\
+  fqn_resolve wconf w_py 3 [110]%N 7 = Unknown /\ fqn_resolve wconf w_py 2 [107]%N 7 = Found 3.
+Proof. vm_compute. repeat split; reflexivity. Qed.
+Print Assumptions C10_nonvacuous_walked.
